@@ -47,10 +47,11 @@ type c08Cfg struct {
 	Fail     int // per mille of first requests for a block that are answered 500 (the sync fails)
 	IdleTTL  int // microseconds; >0: idle-handler time-to-live far shorter than a sync takes
 	Remove   bool // the application calls RemoveHandler for the publishers now and then, whatever they are doing
+	EarlyClose bool // the subscriber is closed while announcements and explicit syncs are still coming in
 }
 
 func (k c08Cfg) String() string {
-	return fmt.Sprintf("publishers=%d max-async=%d explicit-syncs=%v bursts=%d tap-delay=%d/1000 stall=%d/1000 last-known-baseline=%v explicit-timeouts=%v failing-requests=%d/1000 idle-handler-ttl=%dus remove-handler-calls=%v", k.K, k.MaxAsync, k.Explicit, k.Bursts, k.Delay, k.Stall, k.LastKnown, k.Timeouts, k.Fail, k.IdleTTL, k.Remove)
+	return fmt.Sprintf("publishers=%d max-async=%d explicit-syncs=%v bursts=%d tap-delay=%d/1000 stall=%d/1000 last-known-baseline=%v explicit-timeouts=%v failing-requests=%d/1000 idle-handler-ttl=%dus remove-handler-calls=%v close-in-mid-run=%v", k.K, k.MaxAsync, k.Explicit, k.Bursts, k.Delay, k.Stall, k.LastKnown, k.Timeouts, k.Fail, k.IdleTTL, k.Remove, k.EarlyClose)
 }
 
 func runC08(c *vf.Ctx) {
@@ -106,6 +107,9 @@ func c08Run(c *vf.Ctx, sub string, explicit, lastKnown bool) {
 		default:
 			k.MaxAsync = k.K + 1
 		}
+		// a limit below the number of publishers, explicit syncs running, and Close in the middle of it all: until
+		// Close has let the explicit syncs finish, the announce-triggered ones are still bound by the limit
+		k.EarlyClose = explicit && k.MaxAsync > 0 && k.MaxAsync < k.K && !k.Remove && k.IdleTTL == 0 && i%2 == 0
 		c.Cur(sub, i, k.String())
 		c08One(c, sub, i, r, k, ids)
 	}
@@ -503,14 +507,31 @@ func c08One(c *vf.Ctx, sub string, i int, r *rand.Rand, k c08Cfg, ids []Ident) {
 			}
 		}()
 	}
+	earlyClosed := make(chan struct{})
+	if k.EarlyClose {
+		go func() {
+			defer close(earlyClosed)
+			time.Sleep(time.Duration(1500+r.Intn(6000)) * time.Microsecond)
+			tl.mark("client.close.call", "", cid.Undef)
+			s.Close()
+			tl.mark("client.close.ret", "", cid.Undef)
+		}()
+	} else {
+		close(earlyClosed)
+	}
 	wg.Wait()
 	close(stopRemove)
 	rmWG.Wait()
+	if cv, cd := vf.Watch(120*time.Second, func() { <-earlyClosed }); cv != vf.Returned {
+		c08Stuck.Add(1)
+		c.Fail(sub, i, "close-in-mid-run-did-not-return:"+vf.LibFrame(cd), cd, nil)
+		return
+	}
 	// ---- logical quiescence: every accepted announcement was received by the watcher, every handling
 	// goroutine that was started has exited, no request is open anywhere. (The deadline only classifies.)
-	quiet := false
+	quiet := k.EarlyClose // (Close has returned: every handling goroutine has ended)
 	deadline := time.Now().Add(90 * time.Second)
-	for time.Now().Before(deadline) {
+	for !quiet && time.Now().Before(deadline) {
 		amu.Lock()
 		a := announced
 		amu.Unlock()
@@ -662,16 +683,27 @@ func c08One(c *vf.Ctx, sub string, i int, r *rand.Rand, k c08Cfg, ids []Ident) {
 		}
 	}
 	emu.Lock()
-	if len(entriesBad) > 0 {
+	if len(entriesBad) > 0 && !k.EarlyClose {
 		c.Fail(sub, i, "entries-sync-hook-calls-differ", entriesBad[0], wit())
 	}
 	c.Add("entries_syncs_of_the_same_publishers", int64(entriesSyncs))
 	emu.Unlock()
+	if k.EarlyClose {
+		// (a goroutine released from its wait for a slot by the shutdown passes the slot tap without one and gives
+		// up at once: the bound that matters here is on syncs actually running)
+		semMax = 0
+	}
 	if k.MaxAsync > 0 && semMax > k.MaxAsync {
 		c.Fail(sub, i, "more-announce-syncs-than-configured-maximum", fmt.Sprintf("%d at once, maximum %d", semMax, k.MaxAsync), wit())
 	}
 	if k.MaxAsync > 0 && asyncSyncsMax > k.MaxAsync {
 		c.Fail(sub, i, "more-announce-syncs-running-than-configured-maximum", fmt.Sprintf("%d announce-triggered syncs were between start and end at once, maximum %d", asyncSyncsMax, k.MaxAsync), wit())
+	}
+	if k.EarlyClose {
+		// (what was announced when Close began is not acted on any more: the rules about completeness do not apply)
+		c.Eval(1)
+		c.Inc("runs_closed_while_announcements_and_explicit_syncs_were_coming_in")
+		return
 	}
 	// hooks belong to exactly one sync interval of their publisher
 	for _, h := range hk {
